@@ -52,6 +52,8 @@ class C07(InvProp):
                 l['len'] = 50.0
                 l['diam'] = 0.6
         e1.add_faults(rng, scn, p_pause=0.2, p_rescue=0.1)
+        if rng.chance(0.15):
+            scn['edits'] = e1.gen_edits(rng, scn)
         return scn
 
     def oracle(self, scn, out, c):
